@@ -79,7 +79,7 @@ OPERATORS: List[Tuple[str, str, str, str, List[str]]] = [
     ('trend-assign', 'process.py', r'y\[i\] \+= fun\(x\[i\]\)\n', 'y[i] = fun(x[i])\n', ['C14']),
     ('trend-norm', 'process.py', r'fun\(x\[i\] / range_x\)', 'fun(x[i] / x[-1])', ['C14']),
     ('normalize-plus', 'process.py', r'\* \(max_val - min_val\) \+ min_val', '* (max_val + min_val) + min_val', ['C14']),
-    ('noise-power', 'process.py', r'sp = np\.mean\(a\*\*2\)', 'sp = np.mean(a)**2', ['C15']),
+    ('noise-power', 'process.py', r'sp = np\.mean\(squares\)', 'sp = np.mean(a)**2', ['C15']),
     ('noise-db20', 'process.py', r'10 \*\* \(snr / 10\)', '10 ** (snr / 20)', ['C15']),
     ('noise-branches', 'process.py', r'if snr_in_db is True:', 'if snr_in_db is False:', ['C15']),
     ('smooth-truthy', 'process.py', r'    if s is None:\n        s = len\(y\) \* np\.std\(y\) \*\* 2', '    if not s:\n        s = len(y) * np.std(y) ** 2', ['C16']),
